@@ -69,6 +69,9 @@ type Options struct {
 	SupplyWKT   func(path string) string // returns built-in content for a WKT path
 	NoEditions  bool
 	LintClean   bool
+	// UnusedHeavy adds files with many unused imports: the compiler then emits many warnings
+	// from concurrently linking files.
+	UnusedHeavy bool
 }
 
 var wktPaths = []string{"google/protobuf/timestamp.proto", "google/protobuf/duration.proto", "google/protobuf/empty.proto", "google/protobuf/any.proto"}
@@ -175,6 +178,41 @@ func New(t *tape.Tape, o Options) *Workspace {
 		order = append(order, f)
 		m.Files = append(m.Files, f)
 		ws.Files[f.Path] = f
+	}
+	if o.UnusedHeavy {
+		m := ws.Modules[0]
+		dir := m.Dirs[0]
+		var leaves []*File
+		k := 4 + t.Draw("ws.leaves", 4)
+		big := t.Draw("ws.heavybig", 2) == 1
+		if big {
+			k = 16 + t.Draw("ws.leaves2", 12)
+		}
+		for j := 0; j < k; j++ {
+			f := &File{Module: 0, Path: fmt.Sprintf("%s/leaf%d.proto", dir, j), Syntax: "proto3"}
+			f.Package = strings.ReplaceAll(dir, "/", ".")
+			f.Message = f.Package + fmt.Sprintf(".Leaf%d", j)
+			leaves = append(leaves, f)
+		}
+		heavy := 5 + t.Draw("ws.heavy", 6)
+		if big {
+			heavy = 20 + t.Draw("ws.heavy2", 20)
+		}
+		var hs []*File
+		for j := 0; j < heavy; j++ {
+			f := &File{Module: 0, Path: fmt.Sprintf("%s/heavy%d.proto", dir, j), Syntax: "proto3"}
+			f.Package = strings.ReplaceAll(dir, "/", ".")
+			f.Message = f.Package + fmt.Sprintf(".Heavy%d", j)
+			for _, l := range leaves {
+				f.Imports = append(f.Imports, Import{Path: l.Path, Used: false})
+			}
+			hs = append(hs, f)
+		}
+		for _, f := range append(leaves, hs...) {
+			order = append(order, f)
+			m.Files = append(m.Files, f)
+			ws.Files[f.Path] = f
+		}
 	}
 	if o.PlantError {
 		ws.Planted = order[t.Draw("ws.plant", len(order))]
@@ -439,7 +477,14 @@ func render(t *tape.Tape, ws *Workspace, f *File, o Options) {
 	if !o.LintClean && t.Draw("ws.enum", 3) == 1 {
 		en := fmt.Sprintf("E%s", short[1:])
 		w("\nenum " + en + " {\n")
-		w(fmt.Sprintf("  %s_UNSPECIFIED = 0;\n  %s_ONE = 1;\n}\n", strings.ToUpper(en), strings.ToUpper(en)))
+		up := strings.ToUpper(en)
+		if t.Draw("ws.alias", 2) == 1 {
+			// several names for one number
+			w("  option allow_alias = true;\n")
+			w(fmt.Sprintf("  %s_UNSPECIFIED = 0;\n  %s_ONE = 1;\n  %s_UNO = 1;\n  %s_EINS = 1;\n  %s_ICHI = 1;\n}\n", up, up, up, up, up))
+		} else {
+			w(fmt.Sprintf("  %s_UNSPECIFIED = 0;\n  %s_ONE = 1;\n}\n", up, up))
+		}
 	}
 	if f.HasService && !o.LintClean {
 		w(fmt.Sprintf("\nservice S%s {\n  rpc Do(%s) returns (%s);\n}\n", short[1:], short, short))
@@ -465,5 +510,16 @@ func (ws *Workspace) Mutate(t *tape.Tape) map[string]string {
 		c = c[:i] + "int32 name = 1;" + c[i+len("string name = 1;"):]
 	}
 	out[victim] = c
+	// the previous version of every aliased enum had other names for number 1 and one more
+	// aliased number: deleted / renamed enum values whose messages list several names
+	for _, p := range paths {
+		c := out[p]
+		if i := strings.Index(c, "_ICHI = 1;\n"); i >= 0 {
+			j := strings.LastIndex(c[:i], "  ")
+			up := c[j+2 : i]
+			c = c[:j] + "  " + up + "_ONE_OLD = 1;\n  " + up + "_TWO = 2;\n  " + up + "_DOS = 2;\n  " + up + "_ZWEI = 2;\n  " + up + "_NI = 2;\n" + c[i+len("_ICHI = 1;\n"):]
+			out[p] = c
+		}
+	}
 	return out
 }
